@@ -173,4 +173,53 @@ theorem signedEnc_injective (mb : Nat → Bytes) (hmb : ∀ n, beVal (mb n) = n)
     (h : signedEnc mb x = signedEnc mb y) : x = y := by
   rw [← signedDec_signedEnc mb hmb x, ← signedDec_signedEnc mb hmb y, h]
 
+/-! ### fixed-width two's complement read by the signed decoder -/
+
+set_option maxRecDepth 100000 in
+theorem byte_facts : ∀ n : Fin 256,
+    ((UInt8.ofNat n.val &&& 0x80 ≠ 0) ↔ 128 ≤ n.val) ∧ (UInt8.ofNat n.val ^^^ 0xff).toNat = 255 - n.val := by
+  decide
+
+theorem topBit_iff (b : UInt8) : (b &&& 0x80 ≠ 0) ↔ 128 ≤ b.toNat := by
+  have := (byte_facts ⟨b.toNat, UInt8.toNat_lt b⟩).1
+  simpa [UInt8.ofNat_toNat] using this
+
+theorem xor_ff_toNat (b : UInt8) : (b ^^^ 0xff).toNat = 255 - b.toNat := by
+  have := (byte_facts ⟨b.toNat, UInt8.toNat_lt b⟩).2
+  simpa [UInt8.ofNat_toNat] using this
+
+/-- complementing every byte complements the number -/
+theorem beVal_map_xor (l : Bytes) : beVal (l.map (fun b => b ^^^ 0xff)) + beVal l + 1 = 256 ^ l.length := by
+  induction l with
+  | nil => rfl
+  | cons b t ih =>
+    rw [List.map_cons, beVal_cons, beVal_cons, List.length_map, xor_ff_toNat, List.length_cons, Nat.pow_succ]
+    have hb := UInt8.toNat_lt b
+    have e : (255 - b.toNat) * 256 ^ t.length + b.toNat * 256 ^ t.length = 255 * 256 ^ t.length := by
+      rw [← Nat.add_mul]; congr 1; omega
+    omega
+
+/-- the signed decoder on a non-empty byte string is the two's-complement reading -/
+theorem signedDec_eq (b : Bytes) (hne : b ≠ []) :
+    signedDec b = if 256 ^ b.length ≤ 2 * beVal b then (beVal b : Int) - (256 ^ b.length : Nat) else (beVal b : Nat) := by
+  cases b with
+  | nil => exact absurd rfl hne
+  | cons b0 t =>
+    unfold signedDec
+    have hx := beVal_map_xor (b0 :: t)
+    have hc := beVal_cons b0 t
+    have ht := beVal_lt t
+    have hb := UInt8.toNat_lt b0
+    have hP : 256 ^ (b0 :: t).length = 256 ^ t.length * 256 := by rw [List.length_cons, Nat.pow_succ]
+    by_cases h128 : 128 ≤ b0.toNat
+    · have htop := (topBit_iff b0).2 h128
+      have h1 : 128 * 256 ^ t.length ≤ b0.toNat * 256 ^ t.length := Nat.mul_le_mul_right _ h128
+      simp only []
+      rw [if_pos htop, if_pos (by omega)]
+      omega
+    · have htop : ¬ (b0 &&& 0x80 ≠ 0) := fun h => h128 ((topBit_iff b0).1 h)
+      have h1 : b0.toNat * 256 ^ t.length ≤ 127 * 256 ^ t.length := Nat.mul_le_mul_right _ (by omega)
+      simp only []
+      rw [if_neg htop, if_neg (by omega)]
+
 end Verif.Proofs.BytesBE
